@@ -35,16 +35,17 @@ func (cl *concurrentWriter) Init(c plugintypes.AuditLogConfig) error {
 		return nil
 	}
 
+	// the writer is armed (formatter set) only once the index file is open: a writer whose Init
+	// failed stays a no-op instead of dereferencing a nil index logger on the next Write
+	f, err := os.OpenFile(c.Target, os.O_CREATE|os.O_WRONLY|os.O_APPEND, c.FileMode)
+	if err != nil {
+		return err
+	}
 	cl.logFileMode = c.FileMode
 	cl.logDir = c.Dir
 	cl.logDirMode = c.DirMode
 	cl.formatter = c.Formatter
 	cl.mux = &sync.RWMutex{}
-
-	f, err := os.OpenFile(c.Target, os.O_CREATE|os.O_WRONLY|os.O_APPEND, cl.logFileMode)
-	if err != nil {
-		return err
-	}
 	cl.Closer = f
 
 	cl.log = log.New(f, "", 0)
